@@ -35,7 +35,8 @@ ASSUMPTIONS = [
 ]
 
 State = A.State
-VARIANTS = ['absent', 'correct', 'bitflip', 'truncated', 'empty', 'extended', 'other_spi', 'other_nonce', 'other_addr',
+VARIANTS = ['absent', 'correct', 'bitflip', 'truncated', 'empty', 'extended', 'other_spi', 'other_nonce', 'other_nonce_tail',
+            'nonce_longer', 'nonce_shorter', 'other_addr',
             'right_then_wrong', 'wrong_then_right', 'two_wrong', 'before_restart', 'replayed']
 
 
@@ -110,7 +111,7 @@ def responder_case(case):
     if half != h:
         s.fail('setup-half-open-count', f'{half} half-open IKE_SAs after {h} legitimate IKE_SA_INIT requests')
         return fails, info, s
-    spi, nonce = bytes.fromhex('c0c1c2c3c4c5c6c7'), bytes(range(40, 72))
+    spi, nonce = bytes.fromhex('c0c1c2c3c4c5c6c7'), bytes((40 + i) & 0xFF for i in range(case.get('nonce_len', 32)))
     secret = bytes(a.ctrl.cookie_secret)
     good = expected_cookie(secret, spi, nonce, src)
     # first contact without cookie: learn what the responder asks for
@@ -172,7 +173,13 @@ def responder_case(case):
     elif variant == 'other_spi':
         cookies, req_spi = [demanded], bytes.fromhex('d0d1d2d3d4d5d6d7')
     elif variant == 'other_nonce':
-        cookies, req_nonce = [demanded], bytes(range(41, 73))
+        cookies, req_nonce = [demanded], bytes((41 + i) & 0xFF for i in range(len(nonce)))
+    elif variant == 'other_nonce_tail':
+        cookies, req_nonce = [demanded], nonce[:-1] + bytes([nonce[-1] ^ 0x01])
+    elif variant == 'nonce_longer':
+        cookies, req_nonce = [demanded], nonce + b'\x00'
+    elif variant == 'nonce_shorter':
+        cookies, req_nonce = [demanded], nonce[:-1]
     elif variant == 'other_addr':
         cookies, req_src = [demanded], '10.0.0.77'
     elif variant == 'right_then_wrong':
@@ -327,7 +334,7 @@ def body(case, stats):
     if case['kind'] == 'responder':
         kl = [f'T={case["T"]}', f'h-T={case["h"] - case["T"]}', 'variant:' + case['variant'], 'request:' + case.get('req_kind', 'normal'), 'load-from-other-peer' if case.get('other_peer') else 'load-from-same-peer',
               'cookie-demanded' if info['reached'] else 'no-cookie-demanded']
-        fp = [case['T'], case['h'], case['variant'], case.get('k', 0) % 8, case.get('req_kind', 'normal'), bool(case.get('other_peer'))]
+        fp = [case['T'], case['h'], case['variant'], case.get('k', 0) % 8, case.get('req_kind', 'normal'), bool(case.get('other_peer')), case.get('nonce_len', 32)]
     else:
         kl = [f'initiator:rounds={case["rounds"]}', f'initiator:requests={info["requests"]}'] + \
              (['initiator:then:' + '+'.join(f'{o[0]}@{o[1]}' for o in case['after'])] if case.get('after') else [])
@@ -350,6 +357,9 @@ def all_cases():
                 ks = range(0, 256, 37) if v in ('bitflip', 'truncated') else (0,)
                 for k in ks:
                     out.append({'kind': 'responder', 'T': T, 'h': h, 'variant': v, 'k': k})
+                if v in ('correct', 'other_nonce', 'other_nonce_tail', 'nonce_longer', 'nonce_shorter', 'replayed'):
+                    for nl in (16, 17, 33, 48, 64, 255, 256):
+                        out.append({'kind': 'responder', 'T': T, 'h': h, 'variant': v, 'k': 0, 'nonce_len': nl})
             for rk in ('other_group', 'bad_proposal', 'no_ke'):
                 out.append({'kind': 'responder', 'T': T, 'h': h, 'variant': 'absent', 'k': 0, 'req_kind': rk})
             for v in ('absent', 'correct', 'bitflip', 'other_spi'):
@@ -385,7 +395,7 @@ def cases(draw):
                 'after': draw(st.sampled_from([[]] + AFTER))}
     T = draw(st.sampled_from([0, 1, 2, 3, 5]))
     return {'kind': 'responder', 'T': T, 'h': draw(st.integers(0, T + 3)), 'variant': draw(st.sampled_from(VARIANTS)),
-            'k': draw(st.integers(0, 255)), 'other_peer': draw(st.integers(0, 3)) == 0, 'req_kind': draw(st.sampled_from(['normal', 'normal', 'normal', 'other_group',
+            'k': draw(st.integers(0, 255)), 'nonce_len': draw(st.sampled_from([32, 32, 16, 31, 33, 64, 100, 256])), 'other_peer': draw(st.integers(0, 3)) == 0, 'req_kind': draw(st.sampled_from(['normal', 'normal', 'normal', 'other_group',
                                                                               'bad_proposal', 'no_ke']))}
 
 
